@@ -156,7 +156,7 @@ pub fn run(ctx: &Ctx) -> (Report, String) {
     if ctx.is_main() && ctx.scale_pct == 100 {
         rep.require("pairs_checked", 2 * 64 * 64 * 2);
         rep.require("sums_checked", 1000);
-        rep.require("neighbour_configs_checked", 2000);
+        rep.require("neighbour_configs_checked", 50_000);
         rep.exhaustive = Some(rep.get("pairs_checked") >= 2 * 64 * 64 * 2 && rep.violations.is_empty());
     }
     (rep, rule())
@@ -271,7 +271,7 @@ fn shard(ctx: &Ctx, s: usize, flavours: &[Flavour], rep: &mut Report) {
         // part (c): neighbour configurations
         let k = s - 144;
         let flavour = flavours[k % 2];
-        let n = ctx.n(80, 1600);
+        let n = ctx.n(600, 6000);
         for it in 0..n {
             let mbw = 1 + rng.below(4) as usize;
             let mbh = 1 + rng.below(3) as usize;
